@@ -1,6 +1,7 @@
 import NdonnxVerif.Model.Layout
 import NdonnxVerif.Model.Broadcast
 import NdonnxVerif.Model.IntArith
+import NdonnxVerif.Model.ReduceVal
 /-!
 # Tensor-level ONNX graph terms (core Lean only)
 
@@ -26,6 +27,9 @@ open Ndx
 inductive BOp | add | sub | mul | mod0 | equal | less | and | or
 deriving DecidableEq, Repr
 
+inductive RKind | sum | prod | min | max
+deriving DecidableEq, Repr
+
 inductive TG where
   | inp (i : Nat)
   | const (shape : List Nat) (vals : List Int)       -- an integer (int64 / bool) constant tensor
@@ -43,6 +47,7 @@ inductive TG where
   | bin (op : BOp) (x y : TG)
   | sel (c x y : TG)
   | not (x : TG)
+  | reduce (k : RKind) (keepdims noop : Bool) (x axes : TG)   -- ReduceSum/Prod/Min/Max on int64
 deriving DecidableEq, Repr, Inhabited
 
 /-! ## operator semantics -/
@@ -162,6 +167,16 @@ def castElem (to : Nat) (v : Int) : Int :=
   | 12 => (C02.IType.mk 32 false).wrap v | 13 => (C02.IType.mk 64 false).wrap v
   | _ => v
 
+/-- ONNX `Reduce*` on int64 data as onnxruntime computes it: the fold of the elements of each reduced slice, starting
+from the operator's neutral element (`0`, `1`, `INT64_MAX`, `INT64_MIN`); sums and products wrap in int64. -/
+def reduceOp (k : RKind) (keepdims noop : Bool) (t : Tensor Int) (axes : List Int) : Tensor Int :=
+  let red := (List.range t.rank).map (onnxReduced (axes.map (fun a => Int.ofNat (normAxis t.rank a))) noop)
+  match k with
+  | .sum => reduceT (fun acc v => C02.wrapS 64 (acc + v)) 0 t red keepdims
+  | .prod => reduceT (fun acc v => C02.wrapS 64 (acc * v)) 1 t red keepdims
+  | .min => reduceT (fun acc v => if v < acc then v else acc) int64Max t red keepdims
+  | .max => reduceT (fun acc v => if v > acc then v else acc) int64Min t red keepdims
+
 /-! ## evaluation -/
 
 def TG.eval (env : List (Tensor Int)) : TG → Tensor Int
@@ -181,6 +196,7 @@ def TG.eval (env : List (Tensor Int)) : TG → Tensor Int
   | .bin op x y => bcast2 (evalBOp op) (TG.eval env x) (TG.eval env y)
   | .sel c x y => bcast3 (TG.eval env c) (TG.eval env x) (TG.eval env y)
   | .not x => (TG.eval env x).map (fun v => b2i (v == 0))
+  | .reduce k kd noop x axes => reduceOp k kd noop (TG.eval env x) (TG.eval env axes).toFlat
 
 /-! ## canonical text (identical to the translator's rendering) -/
 
@@ -190,6 +206,9 @@ def showNats (l : List Nat) : String := if l.isEmpty then "-" else ",".intercala
 def BOp.render : BOp → String
   | .add => "Add" | .sub => "Sub" | .mul => "Mul" | .mod0 => "Mod0" | .equal => "Equal" | .less => "Less"
   | .and => "And" | .or => "Or"
+
+def RKind.render : RKind → String
+  | .sum => "ReduceSum" | .prod => "ReduceProd" | .min => "ReduceMin" | .max => "ReduceMax"
 
 def TG.render : TG → String
   | .inp i => s!"in{i}"
@@ -208,5 +227,6 @@ def TG.render : TG → String
   | .bin op x y => s!"({op.render} {TG.render x} {TG.render y})"
   | .sel c x y => s!"(Where {TG.render c} {TG.render x} {TG.render y})"
   | .not x => s!"(Not {TG.render x})"
+  | .reduce k kd noop x axes => s!"({k.render} {if kd then 1 else 0} {if noop then 1 else 0} {TG.render x} {TG.render axes})"
 
 end Ndx.TGraph
